@@ -13,6 +13,13 @@
 //	    second chain with identical receipts/root; header compared with the model's build_block.
 //	(c) corruption: every single-field corruption of header commitments and body of every
 //	    block must be refused and leave head, TD, state and every database key unchanged.
+//	(d) forks.go: fork pairs adversarial about shared identities and block context, imported in
+//	    every order on one warm node and compared with cold nodes.
+//	(e) objects.go: the same Go objects (pool, miner, other blocks, refused imports, another
+//	    signer schedule) versus cold copies: same verdict.
+//	(f) crash.go: the node dies at a database write boundary during import, restarts and is
+//	    offered the chain again.   replay.go: `-replay FILE` re-runs a recorded violation.
+//	Blocks are assembled on a live chain (gen.go), so transactions can read block context.
 package main
 
 import (
@@ -1615,7 +1622,7 @@ func main() {
 	c := vh.Init("C01")
 	m := c.StartModel()
 	defer m.Close()
-	c.Res.Rule = "chains of 13 blocks from core.GenerateChain (faker engine) on two configurations (hard forks 1-9 at heights 2-12 with EIP155/158/Byzantium at 9; TestChainConfig with forks at 1-7), 0-6 transactions per block drawn from 13 kinds (transfers to funded / fresh / empty accounts, zero-value touches, calls into contracts that write and clear storage slots from a small pool and emit LOG1/LOG2, selfdestruct to varying beneficiaries, REVERT-or-LOG0, a contract calling another, creations with and without constructor effects, a failing creation, out-of-gas calls, precompiles, calls into contracts created earlier), homestead- and EIP155-signed, a miner that is also a sender, uncles (at most one per block, 2-6 generations back), empty blocks, a sibling per block and a competing fork. Each chain: (a) nine arrival histories compared observable by observable; commitments and verdict compared with the extracted model; (b) one block assembled by opt/miner's worker over a real TxPool and imported into a second node; (c) every single-field corruption of every block offered before the good block (invariance of head/TD/state/every database key) and re-derived variants afterwards. (d) per chain one pair of competing forks that put different code (same deployer and nonce, different init code and code length), constructor storage, storage values, balances and a one-sided selfdestruct at the SAME identities and read them in later blocks through a probe contract (EXTCODESIZE, EXTCODECOPY, BALANCE, CALL, SSTORE of what was read): eleven orders of arrival of both forks on one running node (A then B, B then A, interleaved; batches / per block; archive / pruning; restarts; after a failed block of the other fork), every block compared with a cold node that only saw its fork. The worker's pending sets in (b) contain transactions that pass the pool but fail inside ApplyTransaction (overdraft by value after nonce bump and gas purchase, overdraft in Create, cannot buy gas after the previous one, gas hog, nonce gaps) at price-dependent positions, at every fork height; the header root must be the root of executing only the included transactions. All blocks are assembled on a live BlockChain (harness/cmd/c01/gen.go: makeHeader-shaped header, core.ApplyTransaction with the chain as context, engine.Finalize), so transactions can read block context: a ctx-probe kind stores BLOCKHASH of 16 fixed depths (1..12, 256, 257, own and next number) and of a chosen depth, COINBASE, TIMESTAMP, NUMBER, DIFFICULTY, GASLIMIT; fork blocks have their own timestamps/coinbases and their BLOCKHASH depths reach across the fork point; the staged configuration has Homestead at 3 and chains carry high-S transactions below it. (e) object identity: every cold import (copies decoded from RLP) is mirrored on a second node that receives the very Go objects (shared between corrupted variants, the good block, the worker and the pool) and the verdicts must agree; per height below a signer fork a block assembled under another signer schedule (EIP155 from 0: replay-protected transactions; Homestead one block later: high-S) is offered cold, as the assembled objects, after a pass through a TxPool, and again after a refused import. A case is distinct and non-trivial by (chain, history | block, corruption | builder parent and included count | fork history | object case, height, source of the objects)."
+	c.Res.Rule = "chains of 13 blocks from core.GenerateChain (faker engine) on two configurations (hard forks 1-9 at heights 2-12 with EIP155/158/Byzantium at 9; TestChainConfig with forks at 1-7), 0-6 transactions per block drawn from 13 kinds (transfers to funded / fresh / empty accounts, zero-value touches, calls into contracts that write and clear storage slots from a small pool and emit LOG1/LOG2, selfdestruct to varying beneficiaries, REVERT-or-LOG0, a contract calling another, creations with and without constructor effects, a failing creation, out-of-gas calls, precompiles, calls into contracts created earlier), homestead- and EIP155-signed, a miner that is also a sender, uncles (at most one per block, 2-6 generations back), empty blocks, a sibling per block and a competing fork. Each chain: (a) nine arrival histories compared observable by observable; commitments and verdict compared with the extracted model; (b) one block assembled by opt/miner's worker over a real TxPool and imported into a second node; (c) every single-field corruption of every block offered before the good block (invariance of head/TD/state/every database key) and re-derived variants afterwards. (d) per chain one pair of competing forks that put different code (same deployer and nonce, different init code and code length), constructor storage, storage values, balances and a one-sided selfdestruct at the SAME identities and read them in later blocks through a probe contract (EXTCODESIZE, EXTCODECOPY, BALANCE, CALL, SSTORE of what was read): eleven orders of arrival of both forks on one running node (A then B, B then A, interleaved; batches / per block; archive / pruning; restarts; after a failed block of the other fork), every block compared with a cold node that only saw its fork. The worker's pending sets in (b) contain transactions that pass the pool but fail inside ApplyTransaction (overdraft by value after nonce bump and gas purchase, overdraft in Create, cannot buy gas after the previous one, gas hog, nonce gaps) at price-dependent positions, at every fork height; the header root must be the root of executing only the included transactions. All blocks are assembled on a live BlockChain (harness/cmd/c01/gen.go: makeHeader-shaped header, core.ApplyTransaction with the chain as context, engine.Finalize), so transactions can read block context: a ctx-probe kind stores BLOCKHASH of 16 fixed depths (1..12, 256, 257, own and next number) and of a chosen depth, COINBASE, TIMESTAMP, NUMBER, DIFFICULTY, GASLIMIT; fork blocks have their own timestamps/coinbases and their BLOCKHASH depths reach across the fork point; the staged configuration has Homestead at 3 and chains carry high-S transactions below it. (e) object identity: every cold import (copies decoded from RLP) is mirrored on a second node that receives the very Go objects (shared between corrupted variants, the good block, the worker and the pool) and the verdicts must agree; per height below a signer fork a block assembled under another signer schedule (EIP155 from 0: replay-protected transactions; Homestead one block later: high-S) is offered cold, as the assembled objects, after a pass through a TxPool, and again after a refused import. (f) crash histories: a counting database stops the import after N writes (a batch is one write) inside a random block (every boundary of one block per mode in the thorough tier), archive and pruning; the node is restarted without Stop and offered the whole chain; head, canonical chain, receipts and state must be those of a node that never crashed. A case is distinct and non-trivial by (chain, history | block, corruption | builder parent and included count | fork history | object case, height, source of the objects)."
 	c.Assume("header verification and uncle verification are the faker engine's (all rules of C13 except the seal); seals are not checked")
 	c.Assume("database = aquadb.MemDatabase; restart = BlockChain.Stop + NewBlockChain on the same database")
 	c.Assume("Go map iteration orders and cache contents actually taken are sampled (one run per history); the theorems cover all of them in the model")
